@@ -773,10 +773,13 @@ def run_cancel_retry(res: Result) -> None:
             if cur[target] is not None:
                 cur[target].cancel()
 
-        async with anyio.create_task_group() as tg:
-            for i in range(ncons):
-                tg.start_soon(consume, i)
-            tg.start_soon(controller)
+        # (a consumer that never comes back - e.g. stuck on the tee's lock - ends the run with TimeoutError,
+        # which is reported as what the consumers observed)
+        with anyio.fail_after(10):
+            async with anyio.create_task_group() as tg:
+                for i in range(ncons):
+                    tg.start_soon(consume, i)
+                tg.start_soon(controller)
         return seen
 
     data = ["a", "b", "c", "d"]
